@@ -117,7 +117,7 @@ chk("C04",
     "DESIGN.md section 6, C04")
 
 chk("C12",
-    "Three exhaustive explorations on the real parser: (a) every ordered pair of bounded use/definition labels (case pairs, multi-character folds, label whitespace incl. line endings, NBSP, escaped brackets; a second alphabet with NUL runs) in a document using the label as shortcut, collapsed, full reference and image - resolves iff the reference normal forms are equal and both labels valid; (b) every sequence of up to 4 segments with one use and 1-3 competing definitions (plain, in quote, in list item, nested, two in one paragraph, or inside one root container holding a tree of quotes and items with definitions at different depths) - the first in source order supplies href/title and is the map's only entry; (c) closure laws on all bounded inputs of four general spaces (every reference node names a map key, keys in normal form, map == fresh Extract over the blocks == streaming pipeline's map).",
+    "Three exhaustive explorations on the real parser: (a) every ordered pair of bounded use/definition labels (case pairs, multi-character folds, label whitespace incl. line endings, NBSP, escaped brackets; a second alphabet with NUL runs) in a document using the label as shortcut, collapsed, full reference and image - resolves iff the reference normal forms are equal and both labels valid; (b) every sequence of up to 4 segments with one use and 1-3 competing definitions (plain, in quote, in list item, nested, two in one paragraph, or inside one root container holding a tree of quotes and items with definitions at different depths) - the first in source order supplies href/title and is the map's only entry; (b') every paragraph that begins with a label and a colon followed by up to 6/7 tokens of destination, title, label, colon, text and white-space material, against a transcription of the definition grammar of spec 4.7 (number of definitions, their destinations and titles, remaining paragraph text, reference map); (c) closure laws on all bounded inputs of four general spaces (every reference node names a map key, keys in normal form, map == fresh Extract over the blocks == streaming pipeline's map).",
     "Bounded scope (alphabet and lengths in the evidence). Reference normalisation uses a hand-written full-case-folding table for the alphabet's characters (self-tested), not x/text.",
     "exhaustive enumeration of bounded label pairs, definition placements/orders and inputs; reference-model (spec 6.3 normalisation, first-wins) comparison on the real parser",
     "DESIGN.md section 6, C12")
@@ -130,7 +130,7 @@ chk("C19",
     "DESIGN.md section 6, C19; section 2.3")
 
 chk("C06",
-    "The driver is a nondeterministic generator: it chooses an abstract document (block skeletons of <= 4 nodes; inline sequences from a 31-atom menu in 8 composition contexts; all escaped texts of <= 3 characters over letter/space/32 punctuation characters; code-block contents from a menu of fence-like lines; container chains to depth 5-6; trees of nested tight/loose lists; escaped link titles and destinations; numeric character references at their digit limits; raw tags, comments, processing instructions, declarations and CDATA sections over three raw-HTML alphabets, judged against a transcription of the grammar of spec 6.6) and then every spelling the serializer is allowed (bullet and delimiter characters, marker padding 1-4, tab where a tab stop makes it equal, fence character/length, ATX closing sequence, setext underline length, quote marker variants (also differing from line to line), title quoting, destination form, hard-break spelling, escaping style, LF/CRLF) within a deviation bound; the real Parse+RenderHTML output must equal the document's denotation through ref.Norm. A guard that re-reads every line with the reference recognisers rejects (and counts) documents it cannot prove unambiguous.",
+    "The driver is a nondeterministic generator: it chooses an abstract document (block skeletons of <= 4 nodes; inline sequences from a 31-atom menu in 8 composition contexts; all escaped texts of <= 3 characters over letter/space/32 punctuation characters; code-block contents from a menu of fence-like lines; container chains to depth 5-6; trees of nested tight/loose lists; escaped link titles and destinations; numeric character references at their digit limits; raw tags, comments, processing instructions, declarations and CDATA sections over three raw-HTML alphabets, judged against a transcription of the grammar of spec 6.6; HTML block start and end conditions (spec 4.6) over documents from a 31-line menu and all element names of conditions 1 and 6; inline link tails over an 11-token alphabet against the definitions of destination, title and inline link (spec 6.3); code spans (6.1) and hard/soft line breaks (6.7, 6.8) over their own alphabets; list items that begin with a blank line (5.2 rule 3); every named character reference of the HTML5 table; pairs of sibling paragraphs inside one container against the same paragraphs parsed alone) and then every spelling the serializer is allowed (bullet and delimiter characters, marker padding 1-4, tab where a tab stop makes it equal, fence character/length, ATX closing sequence, setext underline length, quote marker variants (also differing from line to line), title quoting, destination form, hard-break spelling, escaping style, LF/CRLF) within a deviation bound; the real Parse+RenderHTML output must equal the document's denotation through ref.Norm. A guard that re-reads every line with the reference recognisers rejects (and counts) documents it cannot prove unambiguous.",
     "Bounded scope (node/atom/deviation bounds in the evidence). The abstract model, denotation and serializer are the trusted base (Appendix A of DESIGN.md), self-tested against spec examples their canonical spellings coincide with. Lazy continuation lines are generated for paragraphs (one lazy line per container as a spelling deviation); block indentation of 1-3 columns and most tab spellings are not generated.",
     "stateless model checking of a closed generator-serializer-parser-renderer system: exhaustive enumeration of abstract documents x deviation-bounded serializer spellings; reference denotation as oracle",
     "DESIGN.md section 6, C06; Appendix A")
@@ -140,7 +140,7 @@ chk("C09",
     "stateless explicit enumeration of all bounded inputs x 32 container transformations; metamorphic oracle on the real parser and renderer",
     "DESIGN.md section 6, C09")
 chk("C20",
-    "First clause: the real Format is closed with a scripted writer (with and without WriteString) that may fail at any one write call; every fault point of every bounded input is one execution (returned error must be that writer's error, no write after it), the fault-free execution checks nil error, determinism, equality across writer kinds and an unchanged tree. Second clause: every canonical-style document of the supported construct set S_fmt (block skeletons, inline sequences, nested-list trees, container chains and code-block contents of the C06 generator in canonical spelling) is formatted, re-parsed and compared on rendered HTML, and re-formatted for byte equality.",
+    "First clause: the real Format is closed with a scripted writer (with and without WriteString) that may fail at any one write call; every fault point of every bounded input is one execution (returned error must be that writer's error, no write after it), the fault-free execution checks nil error, determinism, equality across writer kinds and an unchanged tree. Second clause: every canonical-style document of the supported construct set S_fmt (block skeletons, inline sequences, escaped texts of up to three characters over the 32 punctuation characters, nested-list trees, container chains and code-block contents of the C06 generator in canonical spelling) is formatted, re-parsed and compared on rendered HTML, and re-formatted for byte equality.",
     "Bounded scope (alphabets, lengths, document sizes in the evidence). S_fmt is fixed in DESIGN.md section 6 (C20); documents outside it are counted, not judged.",
     "fault enumeration over a controlled writer (every write-call fault point) + exhaustive enumeration of canonical documents with a round-trip oracle",
     "DESIGN.md section 6, C20", "fault_enumeration")
